@@ -12,29 +12,48 @@ import (
 	"sync"
 )
 
-// cfsKeep is the fake Keep used by the C08/C09/C13 harnesses: an in-memory block store whose
-// writes can be failed (by ordinal) or gated (each PutB blocks until released by the controller).
+// cfsKeep is the fake Keep used by the C08/C09/C13 harnesses: an in-memory block store.  Whether a
+// write fails is decided when it arrives, from the current failure mode and the data (the Coq model's
+// put_fails is the same function).  In gated mode every PutB blocks until the controller releases it.
 type cfsKeep struct {
 	mtx     sync.Mutex
 	blocks  map[string][]byte
-	puts    int          // number of PutB calls started
-	log     []cfsPut     // completed PutB calls, in completion order
-	failNth map[int]bool // ordinals (1-based, in start order) that fail
-	failAll bool
-	gated   bool
-	gates   map[int]chan bool // ordinal -> release channel (value: succeed?)
-	arrived chan int          // ordinals, as calls arrive (gated mode)
+	mode    int  // 0 never fail, 1 always, 2 fail iff sum of bytes is even, 3+ fail iff length is odd
+	gated   bool // PutB blocks until released ...
+	syncNow bool // ... except while the controller runs a synchronous save
+	waiting []*cfsGate
+	log     []cfsPut // completed PutB calls, in completion order
+}
+
+type cfsGate struct {
+	data []byte
+	ch   chan struct{}
 }
 
 type cfsPut struct {
-	ordinal int
 	data    []byte
 	locator string
 	ok      bool
 }
 
 func newCfsKeep() *cfsKeep {
-	return &cfsKeep{blocks: map[string][]byte{}, failNth: map[int]bool{}, gates: map[int]chan bool{}, arrived: make(chan int, 1024)}
+	return &cfsKeep{blocks: map[string][]byte{}}
+}
+
+func cfsPutFails(mode int, data []byte) bool {
+	switch mode {
+	case 0:
+		return false
+	case 1:
+		return true
+	case 2:
+		sum := 0
+		for _, b := range data {
+			sum += int(b)
+		}
+		return sum%2 == 0
+	}
+	return len(data)%2 == 1
 }
 
 func (k *cfsKeep) ReadAt(loc string, p []byte, off int) (int, error) {
@@ -53,48 +72,63 @@ func (k *cfsKeep) ReadAt(loc string, p []byte, off int) (int, error) {
 	return copy(p, b[off:]), nil
 }
 
+// preload stores a block as if it had been written earlier; returns its locator.
+func (k *cfsKeep) preload(p []byte) string {
+	h := fmt.Sprintf("%x", md5.Sum(p))
+	k.blocks[h] = append([]byte(nil), p...)
+	return fmt.Sprintf("%s+%d", h, len(p))
+}
+
 func (k *cfsKeep) PutB(p []byte) (string, int, error) {
 	p = append([]byte(nil), p...)
 	k.mtx.Lock()
-	k.puts++
-	ord := k.puts
-	fail := k.failAll || k.failNth[ord]
-	var gate chan bool
-	if k.gated {
-		gate = make(chan bool, 1)
-		k.gates[ord] = gate
+	fail := cfsPutFails(k.mode, p)
+	var gate *cfsGate
+	if k.gated && !k.syncNow {
+		gate = &cfsGate{data: p, ch: make(chan struct{})}
+		k.waiting = append(k.waiting, gate)
 	}
 	k.mtx.Unlock()
 	if gate != nil {
-		k.arrived <- ord
-		if !<-gate {
-			fail = true
-		}
+		<-gate.ch
 	}
 	h := fmt.Sprintf("%x", md5.Sum(p))
 	loc := fmt.Sprintf("%s+%d", h, len(p))
 	k.mtx.Lock()
 	defer k.mtx.Unlock()
 	if fail {
-		k.log = append(k.log, cfsPut{ord, p, "", false})
+		k.log = append(k.log, cfsPut{p, "", false})
 		return "", 0, errors.New("stub keep: write refused")
 	}
 	k.blocks[h] = p
-	k.log = append(k.log, cfsPut{ord, p, loc, true})
+	k.log = append(k.log, cfsPut{p, loc, true})
 	return loc, 1, nil
 }
 
 func (k *cfsKeep) LocalLocator(l string) (string, error) { return l, nil }
 
-// release lets gated PutB number ord finish (ok=false: fail it).
-func (k *cfsKeep) release(ord int, ok bool) {
+func (k *cfsKeep) nwaiting() int {
 	k.mtx.Lock()
-	g := k.gates[ord]
-	delete(k.gates, ord)
-	k.mtx.Unlock()
-	if g != nil {
-		g <- ok
+	defer k.mtx.Unlock()
+	return len(k.waiting)
+}
+
+// releaseData lets every gated PutB whose data equals d return; reports how many there were.
+func (k *cfsKeep) releaseData(d []byte) int {
+	k.mtx.Lock()
+	var keep []*cfsGate
+	n := 0
+	for _, g := range k.waiting {
+		if string(g.data) == string(d) {
+			close(g.ch)
+			n++
+		} else {
+			keep = append(keep, g)
+		}
 	}
+	k.waiting = keep
+	k.mtx.Unlock()
+	return n
 }
 
 // cfsErr maps an error to the model's error class.
